@@ -64,6 +64,7 @@ type c07Env struct {
 	threshold int
 	arrive    []int64 // instant at which node i's answer was handed to vouch (-1: never answered)
 	called    []int
+	pending   int // requests to silent nodes that are still running (their context has not ended)
 	t0, t1    int64
 	ret       byte // label returned ('A','B','I','?' unknown, 0 none)
 	err       error
@@ -80,11 +81,14 @@ func (e *c07Env) serve(ctx context.Context, i int) (byte, error) {
 	e.called[i]++
 	switch lat := c07Lats[nd.lat]; lat {
 	case -1:
+		// a silent node: the request runs until its context ends
+		e.pending++
 		d := ctx.Done()
 		if d == nil {
 			mc.Block(0)
 		}
 		mc.Block(mc.KeyOfRecv(d))
+		e.pending--
 		return 0, ctx.Err()
 	case -2:
 		mc.Sleep(int64(10 * time.Second))
